@@ -6,7 +6,10 @@ R2  loops of mem.masm: (a) the loop guard computed before the loop and the one r
     function of the loop-carried stack (same cells, same comparison); (b) memcopy's body copies the word at the read pointer
     to the write pointer and advances read pointer, write pointer and counter by one each; (c) the epilogue leaves the
     documented result (for memcopy: the untouched rest of the stack)
-The sparse-Merkle-tree and Merkle-mountain-range procedures are not decided."""
+R3  smt::get / smt::set address every Merkle instruction by (64, K[3], current root) (provenance interpretation)
+R4  collections::mmr: loop helpers decided on bit cubes (vlib/mmrflow.BitFlow); get / add / the peak-count helpers term-extracted
+    (vlib/mmrflow.TermFlow) and the extracted address, depth, index and counter terms evaluated on a grid against the native
+    addressing of a Merkle mountain range.  pack / unpack are not decided."""
 import re
 from .masm import *
 from . import rules_c05
@@ -365,10 +368,281 @@ def r3_smt(ctx, F):
     ctx.floor("smt-merkle-operations", n_ops, 6)
 
 
+# ---- R4: Merkle mountain range procedures ---------------------------------------------------------------------------------------
+MMR = "/repo/stdlib/asm/collections/mmr.masm"
+
+
+def mmr_peaks(n):
+    """peak sizes of an MMR with n leaves, largest first"""
+    return [1 << b for b in range(n.bit_length() - 1, -1, -1) if (n >> b) & 1]
+
+
+def mmr_owner(n, pos):
+    """(index of the owning peak, its depth, position of the leaf inside it) as the native Mmr addresses leaf `pos`"""
+    before = 0
+    for i, size in enumerate(mmr_peaks(n)):
+        if pos < before + size:
+            return i, size.bit_length() - 1, pos - before
+        before += size
+    return None
+
+
+def r4_mmr(ctx, F):
+    from . import mmrflow
+    from .mmrflow import TermFlow, tev, Fail, bit_paths, compatible
+    loc0 = "stdlib/asm/collections/mmr.masm"
+    try:
+        M = Module(MMR)
+    except (MasmError, OSError) as e:
+        ctx.violation("UNANALYSABLE|mmr", loc0, str(e)[:200])
+        return
+
+    def ploc(name):
+        return "%s:%d" % (loc0, M.procs[name].line) if name in M.procs else loc0
+    # -- (a) loop helpers: bit-cube paths against the reference cubes
+    def tones_ref(w):
+        return [({**{i: 1 for i in range(k)}, **({k: 0} if k < w else {})}, [k]) for k in range(w + 1)]
+    ilog_ref = [({**{k: 1}, **{i: 0 for i in range(k + 1, 32)}}, [k, 1 << k]) for k in range(32)] + [({i: 0 for i in range(32)}, None)]
+    decided = set()
+    for name, width, ref in (("u32unchecked_trailing_ones", 32, tones_ref(32)), ("trailing_ones", 64, tones_ref(64)), ("ilog2_checked", 32, ilog_ref)):
+        ctx.inst(key="mmr::" + name, nontrivial=True)
+        if name not in M.procs:
+            ctx.violation("mmr-procedure-missing|%s" % name, loc0, "procedure %s not found" % name)
+            continue
+        try:
+            paths = bit_paths(M, name, width)
+        except (Undecided, MasmError, IndexError) as e:
+            ctx.violation("UNANALYSABLE|mmr::%s" % name, ploc(name), str(e)[:300])
+            continue
+        bad = None
+        for cube, kind, detail in paths:
+            for rc, want in ref:
+                if not compatible(cube, rc):
+                    continue
+                if kind == "diverge":
+                    bad = "does not terminate for operands with bits %s (%s)" % (cube, detail)
+                elif want is None:
+                    if kind != "fail":
+                        bad = "completes for operands with bits %s; documented to fail" % cube
+                elif kind != "ok":
+                    bad = "fails (%s) for operands with bits %s; expected %s" % (detail, cube, want)
+                else:
+                    got = detail[:len(want)]
+                    rest = detail[len(want):len(want) + 8]
+                    if got != want or rest != [("deep", i) for i in range(1, 9)]:
+                        bad = "for operands with bits %s leaves %s / %s; expected %s above the untouched stack" % (cube, got, rest[:3], want)
+                if bad:
+                    break
+            if bad:
+                break
+        ctx.oblig(bad is None)
+        ctx.analysed("mmr::%s: %d bit-cube paths" % (name, len(paths)))
+        if bad:
+            ctx.violation("mmr-helper|%s" % name, ploc(name), "mmr::%s %s" % (name, bad))
+        else:
+            decided.add(name)
+    contracts = {k: v for k, v in TermFlow.CONTRACTS.items() if k in decided}
+
+    def extract(name, stack):
+        X = TermFlow(M, contracts)
+        return X.run(M.procs[name].body, stack, [], [])
+
+    def pick(paths, env):
+        live = []
+        for st, ev, gd in paths:
+            ok = True
+            for c, val in gd:
+                if tev(c, env) != val:
+                    ok = False
+                    break
+            if ok:
+                live.append((st, ev))
+        return live
+    # -- (b) the two counting helpers
+    for name, ref, dom in (("num_leaves_to_num_peaks", lambda n: bin(n).count("1"), list(range(0, 300)) + [2 ** 31, 2 ** 32 - 1, 2 ** 32, 2 ** 32 + 5, 2 ** 63 + 2 ** 31 + 1, 2 ** 64 - 2 ** 32]),
+                           ("num_peaks_to_message_size", lambda n: max(16, n + (n & 1)), list(range(0, 70)))):
+        ctx.inst(key="mmr::" + name, nontrivial=True)
+        try:
+            paths = extract(name, [("in", "x")] + [("deep", i) for i in range(1, 40)])
+            bad = None
+            for x in dom:
+                live = pick(paths, {"x": x})
+                if len(live) != 1:
+                    bad = "%d paths at %d" % (len(live), x)
+                    break
+                st, ev = live[0]
+                got = tev(st[0], {"x": x})
+                if got != ref(x) or st[1:4] != [("deep", 1), ("deep", 2), ("deep", 3)] or ev:
+                    bad = "at %d returns %s, expected %d" % (x, got, ref(x))
+                    break
+        except (Undecided, MasmError, IndexError, KeyError) as e:
+            ctx.violation("UNANALYSABLE|mmr::%s" % name, ploc(name), str(e)[:300])
+            continue
+        except Fail as e:
+            bad = "fails (%s)" % e
+        ctx.oblig(bad is None)
+        if bad:
+            ctx.violation("mmr-count|%s" % name, ploc(name), "mmr::%s %s" % (name, bad))
+    # -- (c) get: which peak is loaded, and which (depth, index, root) mtree_get is asked for
+    ctx.inst(key="mmr::get", nontrivial=True)
+    try:
+        paths = extract("get", [("in", "pos"), ("in", "ptr")] + [("deep", i) for i in range(2, 40)])
+    except (Undecided, MasmError, IndexError) as e:
+        paths = None
+        ctx.violation("UNANALYSABLE|mmr::get", ploc("get"), str(e)[:300])
+    if paths is not None:
+        grid = [(n, pos) for n in range(1, 130) for pos in range(n)]
+        for n in (2 ** 31, 2 ** 32 - 1, 2 ** 31 + 1, 0xAAAAAAAA, 0x55555555, 0x80000001, 0xFFFF0000, 0x00010001):
+            edges = {0, n - 1, n // 2}
+            acc = 0
+            for size in mmr_peaks(n):
+                edges |= {acc, acc + size - 1}
+                acc += size
+            grid += [(n, pos) for pos in sorted(edges) if 0 <= pos < n]
+        bad = None
+        for n, pos in grid:
+            for ptr in (0, 1000):
+                env = {"pos": pos, "ptr": ptr}
+                idx, depth, rel = mmr_owner(n, pos)
+                try:
+                    # the value mem_load returns is the number of leaves
+                    outcome = None
+                    for st, ev, gd in paths:
+                        e2 = dict(env)
+                        loads = [e for e in ev if e[0] == "mem_load"]
+                        for e in loads:
+                            e2[e[3]] = n
+                        if all(tev(c, e2) == val for c, val in gd):
+                            if outcome is not None:
+                                bad = "two paths at n=%d pos=%d" % (n, pos)
+                            outcome = (st, ev, e2)
+                    if outcome is None:
+                        bad = bad or "no path at n=%d pos=%d" % (n, pos)
+                        break
+                    st, ev, e2 = outcome
+                    loads = [e for e in ev if e[0] == "mem_load"]
+                    lw = [e for e in ev if e[0] == "mem_loadw"]
+                    mg = [e for e in ev if e[0] == "mtree_get"]
+                    others = [e for e in ev if e[0] not in ("mem_load", "mem_loadw", "mtree_get")]
+                    if len(loads) != 1 or tev(loads[0][2], e2) != ptr:
+                        bad = "the number of leaves is not read from mmr_ptr"
+                    elif len(lw) != 1 or tev(lw[0][2], e2) != ptr + 1 + idx:
+                        bad = "at num_leaves=%d pos=%d the peak is loaded from mmr_ptr+%s; the owning peak is peak %d, stored at mmr_ptr+%d" % (n, pos, (tev(lw[0][2], e2) - ptr) if lw else None, idx, 1 + idx)
+                    elif others:
+                        bad = "unexpected effect %s" % others[0][0]
+                    elif depth == 0:
+                        if mg or tuple(st[:4]) != lw[0][3]:
+                            bad = "at num_leaves=%d pos=%d (single-leaf peak) the peak itself must be returned" % (n, pos)
+                    else:
+                        if len(mg) != 1 or tev(mg[0][2], e2) != depth or tev(mg[0][3], e2) != rel or mg[0][4] != lw[0][3] or tuple(st[:4]) != mg[0][5]:
+                            bad = "at num_leaves=%d pos=%d mtree_get is asked for (depth %s, index %s) of %s; expected (depth %d, index %d) of the loaded peak, returning the node" % (
+                                n, pos, tev(mg[0][2], e2) if mg else None, tev(mg[0][3], e2) if mg else None, "the loaded peak" if mg and mg[0][4] == lw[0][3] else "another word", depth, rel)
+                    if not bad and st[4:8] != [("deep", i) for i in range(2, 6)]:
+                        bad = "the stack below the result is %s" % (st[4:8],)
+                except Fail as e:
+                    bad = "fails (%s) at the valid position num_leaves=%d pos=%d" % (e, n, pos)
+                if bad:
+                    break
+            if bad:
+                break
+        ctx.oblig(bad is None)
+        ctx.analysed("mmr::get: %d paths, evaluated at %d (num_leaves, pos) points" % (len(paths), len(grid)))
+        if bad:
+            ctx.violation("mmr-get", ploc("get"), "mmr::get: " + bad)
+    # -- (d) add: prologue, generic loop iteration, epilogue
+    ctx.inst(key="mmr::add", nontrivial=True)
+    sp = split_loop(M.procs["add"].body) if "add" in M.procs else None
+    if sp is None:
+        ctx.violation("shape|mmr::add", ploc("add") if "add" in M.procs else loc0, "mmr::add no longer has exactly one loop")
+        return
+    pre, loop, suf = sp
+    try:
+        X = TermFlow(M, contracts)
+        el = [("in", "el%d" % k) for k in range(4)]
+        pres = X.run(pre, el + [("in", "ptr")] + [("deep", i) for i in range(5, 40)], [], [])
+        body = TermFlow(M, contracts).run(loop[1], [("in", "w%d" % k) for k in range(4)] + [("in", "e%d" % k) for k in range(4)] + [("in", "cnt"), ("in", "end")] + [("deep", i) for i in range(10, 40)], [], [])
+        sufs = TermFlow(M, contracts).run(suf, [("in", "w%d" % k) for k in range(4)] + [("in", "e%d" % k) for k in range(4)] + [("in", "cnt"), ("in", "end")] + [("deep", i) for i in range(10, 40)], [], [])
+    except (Undecided, MasmError, IndexError) as e:
+        ctx.violation("UNANALYSABLE|mmr::add", ploc("add"), str(e)[:300])
+        return
+    bad = None
+    if len(pres) != 1 or len(body) != 1 or len(sufs) != 1:
+        bad = "prologue / body / epilogue are expected to be straight-line"
+    else:
+        st, ev, gd = pres[0]
+        loads = [e for e in ev if e[0] == "mem_load"]
+        stores = [e for e in ev if e[0] == "mem_store"]
+        for n in list(range(0, 300)) + [2 ** 31 - 1, 2 ** 31, 2 ** 32 - 2, 0xFFFF, 0x7FFFFFFF, 0xAAAAAAAA, 0x55555555]:
+            for ptr in (0, 77):
+                env = {"ptr": ptr}
+                for e in loads:
+                    env[e[3]] = n
+                try:
+                    t1 = 0
+                    while (n >> t1) & 1:
+                        t1 += 1
+                    if len(loads) != 1 or tev(loads[0][2], env) != ptr:
+                        bad = "the number of leaves is not read from mmr_ptr"
+                    elif len(stores) != 1 or tev(stores[0][2], env) != ptr or tev(stores[0][3], env) != n + 1:
+                        bad = "the prologue must store num_leaves + 1 at mmr_ptr"
+                    elif [e for e in ev if e[0] not in ("mem_load", "mem_store")]:
+                        bad = "unexpected effect in the prologue"
+                    else:
+                        guard, work = st[0], st[1:]
+                        vals = [tev(x, env) if not (isinstance(x, tuple) and x[0] == "in" and x[1].startswith("el")) else x for x in work[:10]]
+                        want = [0, 0, 0, 0] + el + [(-t1) % mmrflow.P, ptr + bin(n).count("1") + 1]
+                        if vals != want or work[10:13] != [("deep", 5), ("deep", 6), ("deep", 7)]:
+                            bad = "at num_leaves=%d the loop is entered with %s; expected [0,0,0,0, EL, -trailing_ones(num_leaves) = %d, mmr_ptr + num_peaks + 1 = %d]" % (n, vals, (-t1) % mmrflow.P, want[9])
+                        elif tev(guard, env) != int(t1 != 0):
+                            bad = "at num_leaves=%d the entry guard is %d; %d merges are needed" % (n, tev(guard, env), t1)
+                except Fail as e:
+                    bad = "the prologue fails (%s) at num_leaves=%d" % (e, n)
+                if bad:
+                    break
+            if bad:
+                break
+    if not bad:
+        st, ev, gd = body[0]
+        lw = [e for e in ev if e[0] == "mem_loadw"]
+        mm = [e for e in ev if e[0] == "mtree_merge"]
+        sw = [e for e in ev if e[0] == "mem_storew"]
+        E = [("in", "e%d" % k) for k in range(4)]
+        for cnt, end in ((mmrflow.P - 1, 5), (mmrflow.P - 3, 40), (mmrflow.P - 31, 1000)):
+            env = {"cnt": cnt, "end": end}
+            if len(lw) != 1 or tev(lw[0][2], env) != end - 1:
+                bad = "the loop body must load the last peak (at mmr_end - 1)"
+            elif len(mm) != 1 or mm[0][2] != lw[0][3] or mm[0][3] != tuple(E):
+                bad = "the loop body must merge (left = the loaded peak, right = the element being added); it merges left=%s right=%s" % (mm[0][2][:1] if mm else None, mm[0][3][:1] if mm else None)
+            elif len(sw) != 1 or tev(sw[0][2], env) != end or any(x != 0 for x in sw[0][3]):
+                bad = "the loop body must erase the slot at mmr_end with a zero word"
+            elif len(ev) != 3:
+                bad = "unexpected effect in the loop body"
+            else:
+                guard, work = st[0], st[1:]
+                if tuple(work[4:8]) != mm[0][4] or tev(work[8], env) != (cnt + 1) % mmrflow.P or tev(work[9], env) != end - 1 or work[10:12] != [("deep", 10), ("deep", 11)]:
+                    bad = "the loop body must leave [_, merged, -num_merges + 1, mmr_end - 1]; it leaves counter %s, end %s" % (tev(work[8], env), tev(work[9], env))
+                elif tev(guard, env) != int((cnt + 1) % mmrflow.P != 0):
+                    bad = "the end-of-body guard does not test the remaining merge count"
+            if bad:
+                break
+    if not bad:
+        st, ev, gd = sufs[0]
+        sw = [e for e in ev if e[0] == "mem_storew"]
+        env = {"cnt": 0, "end": 9}
+        if len(ev) != 1 or len(sw) != 1 or tev(sw[0][2], env) != 9 or sw[0][3] != tuple(("in", "e%d" % k) for k in range(4)):
+            bad = "the epilogue must store the merged element at mmr_end and nothing else"
+        elif st[:3] != [("deep", 10), ("deep", 11), ("deep", 12)]:
+            bad = "the epilogue must consume the working cells and leave the rest of the stack (%s)" % (st[:3],)
+    ctx.oblig(bad is None)
+    if bad:
+        ctx.violation("mmr-add", ploc("add"), "mmr::add: " + bad)
+
+
 def run(ctx, F):
     ctx.trusted += ["vlib/masm.py (MASM parser, positional word model for loc_storew/loc_loadw/mem_loadw/mem_storew, C05's data-movement table)",
                     "loop lemma: a loop whose body only drops words and whose guard is depth != 16 ends with depth 16; a loop that copies mem[r] to mem[w] and increments r, w and a counter from -n to 0 copies n consecutive words"]
-    ctx.assumptions += ["collections::smt: only the addressing of the Merkle operations and the returned root are decided (C18-R3); collections::mmr is not decided", "pipe_* procedures: only the loop-guard agreement is decided"]
+    ctx.assumptions += ["collections::smt: only the addressing of the Merkle operations and the returned root are decided (C18-R3); collections::mmr: get / add / helpers decided for valid positions (C18-R4), pack / unpack not decided", "pipe_* procedures: only the loop-guard agreement is decided"]
     ctx.run_rule("C18-R1", "truncate_stack saves the top 16 in locals, loops only dropping words until depth 16, and restores the saved words to their original positions", r1_truncate, F)
     ctx.run_rule("C18-R3", "smt::get / smt::set: on every path each mtree_get / mtree_set / mtree_verify is addressed by (LEAF_DEPTH = 64, K[3], current root) and the returned root is the input root or the one produced by the last mtree_set (provenance interpretation of smt.masm)", r3_smt, F)
+    ctx.run_rule("C18-R4", "collections::mmr: the loop helpers (trailing ones, ilog2) decided on bit cubes; get loads the owning peak and asks mtree_get for (depth, index) of the leaf inside it; add stores num_leaves + 1, merges trailing_ones(num_leaves) times (left = last peak, right = element) erasing merged slots, and stores the result as the new last peak", r4_mmr, F)
     ctx.run_rule("C18-R2", "mem.masm loops: entry guard and end-of-body guard are the same function of the loop-carried stack; memcopy's body copies one word and advances the three counters; prologue/epilogue as documented", r2_mem_loops, F)
